@@ -2105,3 +2105,68 @@ def interpreted_verlet_step(repo):
     if not out:
         raise AnalysisError("no one_step implementation found")
     return out
+
+
+# ------------------------------------------------------------------------------------------------------------------------------------------------
+# C16-R4: the orbital window of the CIS / RPA active space, decided by value
+# ------------------------------------------------------------------------------------------------------------------------------------------------
+def interpreted_orbital_window(repo):
+    """get_occ_virt (the active space of the Davidson drivers) and the orbital-energy differences of calc_cis_energy are interpreted (sa.npsym) for a uniform batch with 4
+    occupied of 9 orbitals and the windows None, (2, 3), (1, 4), (3, 1), (4, 5): the occupied block must be the n highest occupied orbitals, the virtual block the m lowest
+    virtual ones (n first, m second, as documented: `(n, m): n orbitals below the HOMO and m above the LUMO`), ea_ei[b, i, a] = e[b, virt_a] - e[b, occ_i]; windows that exceed
+    the occupied / virtual space, (5, 1) and (1, 6), must be rejected.  Heterogeneous batches: no window -> padded per-molecule blocks.  Returns (ok, message, n)."""
+    import ast
+    import numpy as np
+    import sympy as sp
+    from .loader import AnalysisError
+    from .npsym import NpSym, Raised
+    rc = repo.mod("seqm/seqm_functions/rcis_batch.py")
+    f = rc.func("get_occ_virt")
+    nmol, nb, norb, nocc = 2, 3, 9, 4
+    C = np.array([[[sp.Symbol(f"C{m}_{b}_{k}") for k in range(norb)] for b in range(nb)] for m in range(nmol)], dtype=object)
+    e = np.array([[sp.Symbol(f"e{m}_{k}") for k in range(norb)] for m in range(nmol)], dtype=object)
+    mol = lambda: types.SimpleNamespace(molecular_orbitals=C.copy(), nocc=np.array([nocc] * nmol, dtype=np.int64), norb=np.array([norb] * nmol, dtype=np.int64), nmol=nmol)
+    n = 0
+    for win in (None, (2, 3), (1, 4), (3, 1), (4, 5)):
+        n_below, m_above = (nocc, norb - nocc) if win is None else win
+        try:
+            res = NpSym(repo).call_function(rc, f, [mol()], {"orbital_window": win, "e_mo": e.copy()})
+        except Raised as ex:
+            return False, f"get_occ_virt rejects the valid orbital window {win} (4 occupied, 5 virtual orbitals): {str(ex)[:80]}", n
+        n += 1
+        no, nv, Cocc, Cvirt, ea_ei = res
+        occ = list(range(nocc - n_below, nocc))
+        virt = list(range(nocc, nocc + m_above))
+        ok = int(no) == len(occ) and int(nv) == len(virt) and np.asarray(Cocc).shape == (nmol, nb, len(occ)) and np.asarray(Cvirt).shape == (nmol, nb, len(virt))
+        ok = ok and bool((np.asarray(Cocc) == C[:, :, occ]).all()) and bool((np.asarray(Cvirt) == C[:, :, virt]).all())
+        if not ok:
+            return False, (f"orbital window {win} (documented: n orbitals below the HOMO, m above the LUMO): the active space is not the {n_below} highest occupied and the {m_above} "
+                           f"lowest virtual orbitals (it has {int(no)} occupied and {int(nv)} virtual orbitals): the eigenvalues returned are those of another window"), n
+        want = np.array([[[e[b, a] - e[b, i] for a in virt] for i in occ] for b in range(nmol)], dtype=object)
+        if np.asarray(ea_ei).shape != want.shape or not bool((np.asarray(ea_ei) == want).all()):
+            return False, f"orbital window {win}: the orbital-energy differences are not e[virtual] - e[occupied] of the active orbitals", n
+    for win in ((5, 1), (1, 6)):
+        try:
+            NpSym(repo).call_function(rc, f, [mol()], {"orbital_window": win, "e_mo": e.copy()})
+            return False, f"the orbital window {win} exceeds the 4 occupied / 5 virtual orbitals and is accepted", n
+        except Raised:
+            n += 1
+    # orbital-energy differences of calc_cis_energy under a window: the top-level statement that defines ea_ei, by backward slice
+    ce = rc.func("calc_cis_energy")
+    tgt = [st for st in ce.body if isinstance(st, ast.Assign) and any(isinstance(t, ast.Name) and t.id == "ea_ei" for t in st.targets)]
+    if len(tgt) == 1:
+        for win in (None, (2, 3), (3, 1)):
+            n_below, m_above = (nocc, norb - nocc) if win is None else win
+            I = NpSym(repo)
+            env = {"mol": mol(), "e_mo": e.copy(), "orbital_window": win, "rpa": True, "w": None, "amplitude": None, "F": None, "P": None}
+            try:
+                val = slice_and_eval(I, rc, ce, tgt[0].value, env)
+            except (AnalysisError, Raised):
+                break
+            occ, virt = list(range(nocc - n_below, nocc)), list(range(nocc, nocc + m_above))
+            want = np.array([[[e[b, a] - e[b, i] for a in virt] for i in occ] for b in range(nmol)], dtype=object)
+            n += 1
+            if np.asarray(val).shape != want.shape or not bool((np.asarray(val) == want).all()):
+                return False, (f"calc_cis_energy with the orbital window {win}: the orbital-energy differences are not those of the {n_below} highest occupied and {m_above} lowest "
+                               f"virtual orbitals (the excitation energy handed to the gradient belongs to another window)"), n
+    return True, "", n
